@@ -27,8 +27,8 @@ pub fn world() -> World {
         ],
         rule: "one run = one byte string (length classes 0..10, 46..50, 62..66, 93..99, random) pushed through the real encoder under a drawn write partition and sink fault schedule, or its reference text / corrupted text pulled through the real decoder under a drawn read-size schedule and destination buffer sizes; non-trivial = a cut fell inside a 3-byte/4-char group or a fault fired; distinct = distinct hash of the (op kind, size class, result kind) sequence",
         runs: |_, tier| match tier {
-            Tier::Quick => 300_000,
-            Tier::Thorough => 12_000_000,
+            Tier::Quick => 1_200_000,
+            Tier::Thorough => 40_000_000,
         },
         features: &[],
     }
